@@ -132,6 +132,14 @@ pub fn check(c: &Case) -> Outcome {
             let tneg: Vec<f64> = b.t.iter().map(|t| -t).collect();
             if !bits_eq(&a.t, &tneg) || !bits_eq2(&a.y, &b.y) {
                 let k = a.t.iter().zip(&tneg).position(|(x, y)| x.to_bits() != y.to_bits());
+                if std::env::var_os("VF_DEBUG").is_some() {
+                    for (i, (ya, yb)) in a.y.iter().zip(&b.y).enumerate() {
+                        if !bits_eq(ya, yb) {
+                            eprintln!("sample {} t={:e}: {:?} vs {:?}", i, a.t[i], ya, yb);
+                            break;
+                        }
+                    }
+                }
                 return Outcome::viol(format!("{}: the reflected problem's trajectory is not the mirror image (first differing time index {:?}; {} vs {} samples)", name, k, a.t.len(), b.t.len()));
             }
             for (ta, tb) in a.t_events.iter().zip(&b.t_events) {
